@@ -515,7 +515,8 @@ func (sc *scen) headOfLine(volume int64) {
 		case <-done:
 			finished = true
 		case <-tick.C:
-			if m := moved.Load(); m != last {
+			ws, wd := sc.s.mon.idleSnapshot()
+			if m := moved.Load() + ws + wd; m != last {
 				last, lastAt = m, time.Now()
 				continue
 			}
@@ -527,7 +528,7 @@ func (sc *scen) headOfLine(volume int64) {
 				return
 			}
 			sc.r.Violation(map[string]string{"rule": "head-of-line-blocking"},
-				fmt.Sprintf("%s (%s): with %d stream(s) whose reader never reads, another stream moved %d of %d bytes and then nothing for %s (heartbeat max gap %s)", sc.name, sc.cfg, nStalled, moved.Load(), volume, hangBound, hb.maxGap(lastAt)),
+				fmt.Sprintf("%s (%s): with %d stream(s) whose reader never reads, another stream moved %d of %d bytes and then nothing (no byte read, no message or payload byte on the wire) for %s (heartbeat max gap %s)", sc.name, sc.cfg, nStalled, moved.Load(), volume, hangBound, hb.maxGap(lastAt)),
 				sc.witness(map[string]any{"goroutines": goroutineDump(), "stalled_streams": nStalled, "moved": moved.Load(), "volume": volume}))
 			return
 		}
